@@ -147,3 +147,35 @@ CONTRACTS["model:Population.initialize_compartments#with_a_saved_state"] = dict(
 CONTRACTS["model:Population.initialize_compartments#without_a_saved_state"] = dict(
     schema=schema, fragment={"stmt_top": "if parset.initialization is not None"}, make_env=_env_init_branch(False), call_stubs=_apply_stub,
     ensures=[("C10+C07.without_a_saved_state_the_databook_values_are_used", "len(parset.APPLIED) == 0 and LOOP_EXIT == 'end'")], defined_props=["C10", "C07"])
+
+
+def _replay_saved_state_branch(model, contract):
+    """replay END TO END on the udt demo: the state of a finished run is saved at a year in the middle of the run and a new run started there; its first compartment sizes must be the saved ones"""
+    import logging
+    import warnings
+
+    import numpy as np
+
+    warnings.filterwarnings("ignore")
+    import atomica as at
+    import sciris as sc
+
+    at.logger.setLevel(logging.ERROR)
+    P = at.demo("udt", do_run=False)
+    full = P.run_sim(P.parsets[0], store_results=False)
+    Y = float(full.model.t[len(full.model.t) // 2])
+    ps = sc.dcp(P.parsets[0])
+    ps.set_initialization(full, Y)
+    P2 = sc.dcp(P)
+    P2.settings.update_time_vector(start=Y)
+    again = P2.run_sim(ps, store_results=False)
+    i0 = len(full.model.t) // 2
+    bad = []
+    for p1, p2 in zip(full.model.pops, again.model.pops):
+        for c1, c2 in zip(p1.comps, p2.comps):
+            if abs(float(c1.vals[i0]) - float(c2.vals[0])) > 1e-9 * max(1.0, abs(float(c1.vals[i0]))):
+                bad.append("%s/%s restarts at %r, the saved size is %r" % (p1.name, c1.name, float(c2.vals[0]), float(c1.vals[i0])))
+    return dict(verdict="violates" if bad else "holds", detail="; ".join(bad[:2]) or "every compartment restarts at its saved size", prestate=dict(demo="udt", restart_year=Y))
+
+
+CONTRACTS["model:Population.initialize_compartments#with_a_saved_state"]["replay_hook"] = _replay_saved_state_branch
